@@ -278,6 +278,7 @@ func (s *Space) variants() []Variant {
 	}
 	for x := range s.Fam.Children {
 		vs = append(vs, Variant{Name: "then-filter-" + s.Fam.Names[x], Thr: defaultThreshold, Withhold: -1, Filter: -1, Refilter: x + 1, KeepRefs: true, When: whenInterior})
+		vs = append(vs, Variant{Name: "then-sort-by-time-then-filter-" + s.Fam.Names[x], Thr: defaultThreshold, Withhold: -1, Filter: -1, Refilter: x + 1, ByTime: true, KeepRefs: true, When: whenInterior})
 	}
 	vs = append(vs, Variant{Name: "filter-none", Thr: defaultThreshold, Withhold: -1, Filter: -2, When: whenInterior})
 	vs = append(vs, Variant{Name: "filter-all", Thr: defaultThreshold, Withhold: -1, Filter: -3, When: whenInterior})
@@ -862,6 +863,14 @@ func (k *worker) evalVariant(v Variant, times []time.Time) *truth {
 	}
 	if v.Refilter > 0 && len(k.finds) == 0 {
 		accept := f.Children[v.Refilter-1]
+		if v.ByTime {
+			for _, w := range p.ways {
+				w.Updates.SortByTimestamp()
+			}
+			for _, rl := range p.rels {
+				rl.Updates.SortByTimestamp()
+			}
+		}
 		again := append(append([]annotate.Option(nil), opts...), annotate.ChildFilter(func(id osm.FeatureID) bool { return id == accept }))
 		err, panicked := callLibrary(f.IsWay(), p, ds, again)
 		k.calls++
